@@ -128,18 +128,39 @@ class Instrument:
         sched = self.sched
         old_emit, old_start, old_fin = self.old_emit, self.old_start, self.old_fin
 
+        # A finishing child makes two calls on its running parent, `register_child_finished` and
+        # `register_child_emitting`, in an order that is the tree's business; the schedule point "a job
+        # MAY complete here" sits after the LATER of the two, so that a completion callback stays one
+        # atomic action of the coarse model whichever order the tree uses.
+        fin_seen: set = set()
+        emit_seen: set = set()
+
         def emitting(self_, child):
             old_emit(self_, child)
             sched.log.append(("emit", child.label, self_.label))
-            sched.at_emit()
+            key = (id(self_), child.label)
+            if key in fin_seen:
+                fin_seen.discard(key)
+                sched.at_emit()
+            else:
+                emit_seen.add(key)
 
         def starting(self_, child):
             old_start(self_, child)
+            key = (id(self_), child.label)
+            fin_seen.discard(key)
+            emit_seen.discard(key)
             sched.log.append(("start", child.label, self_.label))
 
         def finished(self_, child):
             old_fin(self_, child)
             sched.log.append(("finish", child.label, self_.label))
+            key = (id(self_), child.label)
+            if key in emit_seen:
+                emit_seen.discard(key)
+                sched.at_emit()
+            else:
+                fin_seen.add(key)
 
         comp.sleep = sched.at_sleep
         comp.Composite.register_child_emitting = emitting
